@@ -44,7 +44,7 @@ LEVEL_NOTE = (
 def budget(tier):
     if tier == "quick":
         return dict(max_examples=60, workers=6, time_s=170, min_cases=150)
-    return dict(max_examples=2000, workers=16, time_s=1200, min_cases=1200)
+    return dict(max_examples=2000, workers=16, time_s=1200, min_cases=300)
 
 
 # ------------------------------------------------------------------ cases
